@@ -5,7 +5,7 @@ from ..framework import rule
 from ..astutil import dotted, call_name, call_recv, norm, walk_local, unparse
 from ..consteval import ceval, UNKNOWN
 from .. import q
-from .common import graph_ops, assigned_value, kw, arg, is_cached_test, enclosing_for
+from .common import source_changed_guards, graph_ops, assigned_value, kw, arg, is_cached_test, enclosing_for
 from . import c08  # C08.R4 is listed for C09 as well (also=)
 
 META = {
@@ -127,7 +127,8 @@ def _clears_obj(ctx, fi, subject, depth=0, seen=None):
         if c.args and norm(c.args[0]) == subject:
             # the only condition it may sit under is "the cells is uncached"
             g = {(t, l) for t, l in q.guards_of(fi, c)}
-            if all((t.endswith("is_cached") and l == "F") or (t, l) == ("oldsrc != newsrc", "T")
+            chg = source_changed_guards(fi)
+            if all((t.endswith("is_cached") and l == "F") or (l == "T" and t in chg)
                    for t, l in g):     # reload(): unchanged source needs no invalidation
                 return ["%s: %s" % (fi.short, norm(c))]
     # helper methods on the subject
